@@ -3,6 +3,9 @@ package c19
 
 import (
 	"bytes"
+	"crypto/rand"
+	"errors"
+	"io"
 	"sync"
 	"encoding/base64"
 	"fmt"
@@ -497,4 +500,116 @@ func TestManyEncryptions(t *testing.T) {
 	P.EvalN(n)
 	P.AddDistinct(n)
 	P.SetExtra("encryptions_with_distinct_nonces", n)
+}
+
+// ---------- faults at the entropy source ----------
+
+// faultyEntropy hands out k real random bytes per Read call and then the error; with Once set, only the first
+// call fails. It stands for a starved or unavailable system source (no getrandom, no /dev/urandom).
+type faultyEntropy struct {
+	real  io.Reader
+	k     int
+	once  bool
+	calls int
+}
+
+var errEntropy = errors.New("verif: entropy source unavailable")
+
+func (f *faultyEntropy) Read(p []byte) (int, error) {
+	f.calls++
+	if f.once && f.calls > 1 {
+		return f.real.Read(p)
+	}
+	n := f.k
+	if n > len(p) {
+		n = len(p)
+	}
+	if n > 0 {
+		if _, err := io.ReadFull(f.real, p[:n]); err != nil {
+			return 0, err
+		}
+	}
+	if n == len(p) && f.k > len(p) {
+		return n, nil
+	}
+	return n, errEntropy
+}
+
+// TestEntropyFaults: the nonce of every encryption comes from the process' entropy source. With that source
+// failing after k bytes of a read (every k from 0 to 40; on every call, or on the first only), an encryption is
+// either refused, or it is as good as any other: it decrypts, and two encryptions of one value under one key
+// still differ. A value sealed under a nonce that was never drawn is the failure.
+func TestEntropyFaults(t *testing.T) {
+	key := bytes.Repeat([]byte{5}, 32)
+	ctx := &h.Ctx{P: P, T: t}
+	real := rand.Reader
+	defer func() { rand.Reader = real }()
+	plain := "the same plaintext, under a failing entropy source"
+	paths := []string{"meta", "dlg", "inv"}
+	n := 0
+	for _, once := range []bool{false, true} {
+		for k := 0; k <= 40; k++ {
+			for _, path := range paths {
+				var stored [][]byte
+				refused := 0
+				fe := &faultyEntropy{real: real, k: k, once: once}
+				for round := 0; round < 2; round++ {
+					if !once {
+						fe.calls = 0
+					}
+					rand.Reader = fe
+					var b []byte
+					var err error
+					switch path {
+					case "meta":
+						m := meta.NewMeta()
+						if err = m.AddEncrypted("k", plain, key); err == nil {
+							b, err = m.GetBytes("k")
+						}
+					case "dlg":
+						var d *delegation.Token
+						d, err = delegation.Root(keys.Principal(0).DID, keys.Principal(1).DID, command.MustParse("/x"), policy.Policy{},
+							delegation.WithNonce(bytes.Repeat([]byte{1}, 12)), delegation.WithEncryptedMetaString("k", plain, key))
+						if err == nil {
+							b, err = d.Meta().GetBytes("k")
+						}
+					default:
+						var iv *invocation.Token
+						iv, err = invocation.New(keys.Principal(0).DID, keys.Principal(1).DID, command.MustParse("/x"), []cid.Cid{},
+							invocation.WithNonce(bytes.Repeat([]byte{1}, 12)), invocation.WithEncryptedMetaString("k", plain, key))
+						if err == nil {
+							b, err = iv.Meta().GetBytes("k")
+						}
+					}
+					rand.Reader = real
+					n++
+					if err != nil {
+						refused++
+						continue
+					}
+					mm := meta.NewMeta()
+					if aerr := mm.Add("k", b); aerr != nil {
+						t.Fatalf("harness: %v", aerr)
+					}
+					got, derr := mm.GetEncryptedString("k", key)
+					if derr != nil || got != plain {
+						ctx.Fail("C19/entropy-fault/stored-value-does-not-decrypt", "path %s, entropy failing after %d bytes (once=%v): the encryption was accepted but the stored value decrypts to %q, %v", path, k, once, got, derr)
+					}
+					stored = append(stored, b)
+				}
+				P.Class(fmt.Sprintf("entropy-fault:%s:refused=%d/2", path, refused))
+				if len(stored) == 2 && bytes.Equal(stored[0], stored[1]) {
+					ctx.Fail("C19/entropy-fault/two-encryptions-identical", "path %s, entropy source failing after %d bytes of each read: both encryptions of the same value were accepted and are byte-identical (nonce %x): the nonce was not drawn", path, k, stored[0][:min(24, len(stored[0]))])
+				}
+				for _, b := range stored {
+					if len(b) >= 24 && k < 24 && !once && bytes.Equal(b[k:24], make([]byte, 24-k)) && 24-k >= 8 {
+						ctx.Fail("C19/entropy-fault/nonce-not-drawn", "path %s: a value was sealed although the entropy read failed after %d bytes; the nonce %x ends in %d zero bytes", path, k, b[:24], 24-k)
+					}
+				}
+			}
+		}
+	}
+	P.EvalN(n)
+	P.AddDistinct(n)
+	P.SetExtra("entropy_fault_runs", n)
 }
